@@ -89,9 +89,12 @@ type env struct {
 }
 
 func newEnv(evPath string) *env {
-	base := "/dev/shm"
+	base := hx.ShmBase()
 	if st, err := os.Stat(base); err != nil || !st.IsDir() {
 		base = os.TempDir()
+	}
+	if b := os.Getenv("VERIF_ADM_SHM"); b != "" { // set by the parent, which removes it at the end
+		base = b
 	}
 	dir, err := ioutil.TempDir(base, "verif-c14-")
 	if err != nil {
